@@ -4,4 +4,5 @@ package runh
 var Harnesses = map[string]func(){
 	"History": History,
 	"Order":   Order,
+	"Find":    Find,
 }
